@@ -1652,3 +1652,47 @@ M("C04-ignoremember-skips-data-members", "C04", "src/interrogate/interrogateBuil
   "      } else if (!in_ignoremember(inst->get_simple_name())) {\n        // Here's a data member declaration (and the user did not ask us to\n        // ignore members of this name).",
   "      } else {\n        // Here's a data member declaration.",
   expect="R04.2|define_struct_type|scan_element")
+
+# ---------------------------------------------------------------- R16.2 emission loops as range-for (seed S7-C16)
+_C16_OLD = r"""  vector_string::const_iterator si;
+  for (si = imports.begin(); si != imports.end(); ++si) {
+    out << "  PyImport_Import(PyUnicode_FromString(\"" << *si << "\"));\n";
+  }
+
+  for (ii = libraries.begin(); ii != libraries.end(); ii++) {
+    out << "  Dtool_" << *ii << "_RegisterTypes();\n";
+  }"""
+MUTANTS.append({"id": "C16-registertypes-over-dependency-map", "prop": "C16", "expect": "R16.2|emission-loop#", "benign": False,
+  "edits": [("src/interrogate/interrogate_module.cxx", _C16_OLD,
+             _C16_OLD.replace("for (ii = libraries.begin(); ii != libraries.end(); ii++) {", "for (auto &lib : dependencies) {").replace('<< *ii << "_RegisterTypes', '<< lib.first << "_RegisterTypes'))]})
+MUTANTS.append({"id": "C16-benign-register-types-range-for", "prop": "C16", "expect": None, "benign": True,
+  "edits": [("src/interrogate/interrogate_module.cxx", _C16_OLD,
+             _C16_OLD.replace("for (ii = libraries.begin(); ii != libraries.end(); ii++) {", "for (auto &lib : libraries) {").replace('<< *ii << "_RegisterTypes', '<< lib << "_RegisterTypes'))]})
+
+# ---------------------------------------------------------------- R10.3 further-parameters clause (seeds S7-C04, S7-C05)
+M("C10-copy-ctor-test-reads-first-parameter", "C10", "src/cppparser/cppInstance.cxx",
+  "             params->_parameters[1]->_initializer != nullptr)) {", "             params->_parameters[0]->_initializer != nullptr)) {",
+  expect="R10.3|check_for_constructor|F_copy_constructor|further-parameters-defaulted")
+M("C10-copy-ctor-test-reads-last-parameter", "C10", "src/cppparser/cppInstance.cxx",
+  "             params->_parameters[1]->_initializer != nullptr)) {", "             params->_parameters.back()->_initializer != nullptr)) {",
+  expect="R10.3|check_for_constructor|F_copy_constructor|further-parameters-defaulted")
+M("C10-benign-copy-ctor-test-size-first", "C10", "src/cppparser/cppInstance.cxx",
+  "            (params->_parameters.size() == 1 ||\n             params->_parameters[1]->_initializer != nullptr)) {",
+  "            (params->_parameters[1 < params->_parameters.size() ? 1 : 0]->_initializer != nullptr ||\n             params->_parameters.size() == 1) &&\n            (params->_parameters.size() == 1 || params->_parameters[1]->_initializer != nullptr)) {",
+  benign=True)
+
+# ---------------------------------------------------------------- R06.13 / R06.14 (seeds S7-C07, S7-C06)
+M("C06-ternary-third-operand-compared-with-itself", "C06", "src/cppparser/cppExpression.cxx",
+  "      *_u._op._op3 == *ot->_u._op._op3;", "      *_u._op._op3 == *_u._op._op3;",
+  expect="R06.13|CPPExpression::is_equal|_u._op._op3")
+M("C06-binary-op2-guarded-by-address", "C06", "src/cppparser/cppExpression.cxx",
+  "  case T_binary_operation:\n    if (*_u._op._op2 != *ot->_u._op._op2) {\n      return *_u._op._op2 < *ot->_u._op._op2;",
+  "  case T_binary_operation:\n    if (_u._op._op2 != ot->_u._op._op2) {\n      return *_u._op._op2 < *ot->_u._op._op2;",
+  expect="R06.14|CPPExpression::is_less|_u._op._op2")
+M("C06-array-bounds-compared-crosswise", "C06", "src/cppparser/cppArrayType.cxx",
+  "    if (*_bounds != *ot->_bounds) {\n      return *_bounds < *ot->_bounds;",
+  "    if (*_bounds != *ot->_bounds) {\n      return *_bounds < *_bounds;",
+  expect="R06.13|CPPArrayType::is_less|_bounds")
+M("C06-benign-comparison-operands-swapped", "C06", "src/cppparser/cppExpression.cxx",
+  "      *_u._op._op3 == *ot->_u._op._op3;", "      *ot->_u._op._op3 == *_u._op._op3;",
+  benign=True)
